@@ -49,7 +49,7 @@ chk("C18","exploration",
  "property-based testing: mutation-based generation with totality oracle (catch_unwind) (proptest)","DESIGN.md §3 C18")
 chk("C12","exploration",
  "Several changesets (finished sessions / overlays with reverse deltas) are prepared on one generated base state and committed in generated orders and flavours (blocking, non-blocking, non-blocking while another session is alive, retried), with rollbacks in between; after every rejected or deferred attempt root, seqn, poison flag, all values, the decoded on-disk image and hash-table occupancy are compared with the state before it, and at the end (live or after a reopen) repeated rollback(1) must walk exactly the model's snapshots.",
- "Acceptance rule: an attempt must succeed iff its base root is the current root and nothing was committed since it was prepared; must fail iff the roots differ; the case 'root current again only because an intervening commit was rolled back' is known finding KF-C12-1 and excluded from generation (counted).",
+ "Acceptance rule: an attempt must succeed iff its base root is the current root and nothing was committed since it was prepared; must fail iff the roots differ; in the corner 'root current again only because an intervening commit was rolled back' (the former known finding KF-C12-1, repaired as FX-C12-2) either outcome is permitted but must be exact; pairs of concurrent blocking commits are judged against both serial orders.",
  "property-based testing: generated competing-commit schedules + model/decoder oracle (proptest)","DESIGN.md §3 C12")
 chk("C16","exploration",
  "After every step of generated histories the store directory is snapshotted and decoded by an independent decoder written from the documented layouts; structural well-formedness, equality of the decoded key-value multiset with the model, hash-table reachability of every stored merkle page and equality of every reachable node slot with the reference trie (absent pages only where marked elided) are checked.",
@@ -61,7 +61,7 @@ chk("C19","exploration",
  "property-based testing: independent on-disk decoder as oracle (allocation partition) over generated histories (proptest)","DESIGN.md §3 C19")
 chk("C11","exploration",
  "Generated overlay trees (chains, forks, drops, commits in and out of order, plain commits and rollbacks in between) judged against a model of overlay status and store version: reads/proofs/roots through valid chains, acceptance of SessionParams::overlay exactly for the complete live chain (six kinds of wrong chains probed), acceptance/rejection of overlay commits, no effect of rejected commits / dropped overlays, decoded on-disk state and rollback history after the sequence.",
- "Sessions are never built on stale or broken chains except as probes. The corner 'parentless overlay whose base root is current again after commit+rollback' is known finding KF-C12-1 and excluded (counted).",
+ "Sessions are never built on stale or broken chains except as probes. In the corner 'parentless overlay whose base root is current again after commit+rollback' (former known finding KF-C12-1, repaired as FX-C12-2) either outcome is permitted but must be exact.",
  "property-based testing: stateful generation of overlay trees + model oracle (proptest)","DESIGN.md §3 C11")
 chk("C13","exploration",
  "The same generated history is executed under the 1-worker baseline and generated alternative configurations (workers, I/O workers, warm-up, caches, upper levels, pre-population, buckets/seed, hasher), each also under seeded schedule perturbation at nomt's lock acquisition points; every run is judged against the reference model (roots per commit, witnesses, values, proofs), hence runs agree with each other.",
